@@ -79,6 +79,17 @@ def engine_jobs(prop, tier, seed, avoid, spec=None, extra_flags=None, label_pref
 
 
 def plan(prop, tier, seed, avoid):
+    if prop == "C02":
+        # the quantifier of C02 includes dump/load: the dump/load differential (also used by C17) runs here too
+        spec = ENGINE[prop]
+        jobs = engine_jobs(prop, tier, seed, avoid)
+        cases = 800 if tier == "quick" else 30000
+        for sh in range(8):
+            jobs.append(dict(cmd="serworker", variant="plain", label=f"serworker/shard{sh}", env={}, watchdog=3000,
+                             args=["-seed", str(seed + 17), "-shard", str(sh), "-nshards", "8", "-cases", str(cases), "-pairs", "100"]))
+        rule = (f"histories generated by profile 'churn' (see C01 for the scheme) plus dump/load round trips of churn worlds, 40% of them with the "
+                f"dump used as a checkpoint (source world mutated between dump and load); {spec['rule_extra']}")
+        return dict(jobs=jobs, rule=rule, assumptions=ASSUME_ENGINE)
     if prop in ENGINE:
         spec = ENGINE[prop]
         rule = (f"histories generated by profile '{spec['profile']}' from splitmix64(VERIF_SEED, case index): world configuration "
